@@ -357,6 +357,12 @@ def _trunc(x):
     return _np.trunc(x)
 
 
+def _rint(x):
+    if has_sym(x):
+        return _elementwise(lambda e: e.rint() if isinstance(e, Sym) else _np.rint(e), x)
+    return _np.rint(x)
+
+
 def _floor(x):
     if has_sym(x):
         return _elementwise(lambda e: e.floor() if isinstance(e, Sym) else _np.floor(e), x)
@@ -486,7 +492,7 @@ def _asarray(obj, *a, **k):
 OVERRIDES = {
     "where": _where, "isnan": _isnan, "isfinite": _isfinite, "clip": _clip,
     "zeros": _zeros, "ones": _ones, "empty": _empty, "full": _full, "zeros_like": _zeros_like, "ones_like": _like(1.0), "empty_like": _like(0.0),
-    "arange": _arange, "trunc": _trunc, "floor": _floor, "nanmean": _nanmean,
+    "arange": _arange, "trunc": _trunc, "floor": _floor, "rint": _rint, "nanmean": _nanmean,
     "count_nonzero": _count_nonzero, "allclose": _allclose, "isscalar": _isscalar,
     "nanstd": _nanstd, "searchsorted": _searchsorted, "interp": _interp, "array": _array, "asarray": _asarray, "asanyarray": _asarray, "sqrt": _sqrt,
     "abs": _abs, "absolute": _abs,
